@@ -506,9 +506,14 @@ def clip(
 
     # `clip` is evaluated in two steps; make sure that the second one cannot
     # fail on incompatible shapes after the first one has already taken effect
-    np.broadcast_shapes(
+    shape = np.broadcast_shapes(
         *(np.shape(i) for i in (a, a_min, a_max, out) if i is not None)
     )
+    if out is not None and shape != np.shape(out):
+        raise ValueError(
+            f"non-broadcastable output operand with shape {np.shape(out)} doesn't "
+            f"match the broadcast shape {shape}"
+        )
 
     if a_min is not None:
         # `out` is only written to by the final step: once it is the output of the first
